@@ -55,3 +55,32 @@ void h_label_fixup(void) {
     VPOST((long long)v1 == g_prev || Repass, "C01: a label whose final value differs from the previous pass requests another pass");
     VREACH("end");
 }
+
+/* ---- C10: a label inside a STRUCT/UNION body defines a field at its offset.  The element recorded in the innermost
+ * NAMED structure (used when the structure is instantiated) must carry the offset counted from that structure's start:
+ * the label's position in its own (possibly unnamed, nested) union/struct plus the offsets at which the unnamed levels
+ * in between were opened -- the same value the definition symbol S_FIELD gets relative to S. */
+static TStructElem g_elem; static int g_add_calls, g_sym_calls; static unsigned long long g_sym_val; static PStructRec g_add_rec;
+PStructElem CreateStructElem(const struct sStrComp* pElemName) { (void)pElemName; g_elem.Offset = 0; g_elem.Next = NULL; return &g_elem; }
+Boolean AddStructElem(PStructRec pStructRec, PStructElem pElement) { (void)pElement; g_add_calls++; g_add_rec = pStructRec; return True; }
+void AddStructSymbol(char const* pName, LargeWord Value) { (void)pName; g_sym_calls++; g_sym_val = Value; }
+void h_label_struct_elem(void) {
+    static tStrComp name; static char nm[2]; static TStructStack lv[4]; static TStructRec rec; int depth, i; unsigned long long v0, v1, base = 0; Boolean fix;
+    nm[0] = 'F'; nm[1] = 0; name.str.p_str = nm;
+    VND(depth, int); VASSUME(depth >= 0 && depth <= 2);            /* number of unnamed struct/union levels inside the named structure */
+    for (i = 0; i < 4; i++) { lv[i].Next = (i < 3) ? &lv[i + 1] : NULL; VND(lv[i].SaveCurrPC, u64); VASSUME(lv[i].SaveCurrPC < 0x1000000); lv[i].StructRec = NULL; lv[i].Name = nm; }
+    /* stack (top first): depth unnamed levels, then the named structure, then the bottom entry (saved segment PC) */
+    StructStack = &lv[2 - depth]; pInnermostNamedStruct = &lv[2]; lv[2].StructRec = &rec; lv[3].Next = NULL;
+    for (i = 0; i < 2; i++) if (i >= 2 - depth) base += lv[i].SaveCurrPC;
+    VND(v0, u64); VND(v1, u64); VASSUME(v0 < 0x1000000 && v1 < 0x1000000); VND(fix, uchar);
+    g_add_calls = g_sym_calls = 0; g_entered = 0;
+    LabelHandle(&name, v0, False);
+    VPOST(g_add_calls == 1 && g_add_rec == &rec && g_sym_calls == 1 && g_entered == 0, "C10: a label in a structure body defines one field of the innermost named structure and no ordinary symbol");
+    VPOST(g_sym_val == v0, "C10: the definition symbol gets the label's position (the enclosing offsets are added by AddStructSymbol)");
+    VPOST((unsigned long long)g_elem.Offset == base + v0, "C10: the field's offset counts from the start of the named structure: position in its own level + offsets of the unnamed levels in between");
+    if (fix & 1) {
+        LabelModify(v0, v1);                                       /* padding fix-up */
+        VPOST((unsigned long long)g_elem.Offset == base + v1, "C10: ... also after the padding fix-up");
+    }
+    VREACH("end");
+}
